@@ -23,12 +23,14 @@ func init() {
 				"maxDNSSize(network, client size, max), and padding is attempted only on transports with padding support. " +
 				"R5: padAnswer pads only when the request carries the padding option; HasPaddingSupport/IsStdEncrypted are true " +
 				"exactly for DoT, DoH, DoQ; filterUnsupportedOptions keeps exactly NSID and EXPIRE (so padding and keep-alive " +
-				"are never echoed); addTCPKeepAlive adds the option only when both OPT records exist and the request has it.",
+				"are never echoed); addTCPKeepAlive adds the option only when both OPT records exist and the request has it. " +
+				"R6: an OPT record recycled from the cloner's pool for a constructed answer has its option list reset, so options of an earlier response (padding, keep-alive) never reach another client. " +
+				"R7: no handler of the pipeline modifies the EDNS data (OPT record, Extra section) of the request message it received (directly or through a callee): the writers read the client's EDNS size, DO bit and options from that very object.",
 			NotCovered: "that dns.Msg.Truncate really fits the size and the encoded sizes themselves; the up-to-36-byte padding " +
 				"overshoot on DoH acknowledged in a code comment (numeric, out of static reach).",
 			Rules: map[string]string{"C08-R1": "normalise-before-serialise in every wire writer", "C08-R2": "maxDNSSize over all orderings",
 				"C08-R3": "truncate / packWithPrefix gates", "C08-R4": "normalize decision tree and OPT fields",
-				"C08-R5": "padding / keep-alive / option filter gates"},
+				"C08-R5": "padding / keep-alive / option filter gates", "C08-R6": "pooled OPT records are reset before reuse", "C08-R7": "no handler modifies the EDNS data of the request message"},
 		}})
 }
 
@@ -384,6 +386,13 @@ func runC08(c *an.Ctx) {
 		c.Check(ok, "C08-R1", an.FnKey(fn), fn.Pos(), "normalizeTCP(DoQ, msg, resp) dominates packWithPrefix(resp)",
 			"the DoQ response is packed without being normalised first as DoQ")
 	}
+
+	// ---- R6: OPT records taken from the cloner's pool for constructed answers start without options
+	c.Floor("C08-R6", 2)
+	sharedPoolInit(c, "C08-R6", "dnsmsg.newOPT")
+	// ---- R7: handlers never rewrite the client's request, against which the writers normalise the response
+	c.Floor("C08-R7", 8)
+	sharedReqNotMutated(c, "C08-R7")
 
 	// ---- R5
 	for _, m := range []string{"HasPaddingSupport", "IsStdEncrypted"} {
